@@ -120,7 +120,7 @@ partial def loop (h : IO.FS.Stream) (out : IO.FS.Stream) (w : World) : IO Unit :
     | none => out.putStrLn "bad-op"; loop h out w
     | some op =>
       let (w', s) := w.apply op
-      out.putStrLn (s ++ " ## ib=" ++ invBits2 w')
+      out.putStrLn (s ++ " ## ib=" ++ invBits3 w w' (match op with | .on _ _ _ => true | _ => false))
       loop h out w'
 
 def main : IO Unit := do
